@@ -93,26 +93,33 @@ def exc_classes():
 # scratch space
 
 _SCRATCH_BASE = None
+_SCRATCH_TOP = None
 
 
 def scratch_base():
     """A private scratch directory for this process (tmpfs when available), removed at exit."""
-    global _SCRATCH_BASE
+    global _SCRATCH_BASE, _SCRATCH_TOP
     if _SCRATCH_BASE is None or not os.path.isdir(_SCRATCH_BASE):
         base = os.environ.get("HSVERIF_SCRATCH")
         if not base:
             base = "/dev/shm" if os.path.isdir("/dev/shm") and os.access("/dev/shm", os.W_OK) \
                 else tempfile.gettempdir()
-        _SCRATCH_BASE = tempfile.mkdtemp(prefix="hsverif-", dir=base)
+        top = tempfile.mkdtemp(prefix="hsverif-", dir=base)
+        _SCRATCH_BASE = _SCRATCH_TOP = top
+        if os.environ.get("HSVERIF_SCRATCH_STYLE") == "mixed":
+            # every store of this process lives below a path with upper-case letters, a dot and a plus sign (half of the
+            # shards): code that lower-cases, case-folds or pattern-matches whole paths meets a path it changes
+            _SCRATCH_BASE = os.path.join(top, "DataONE", "Hash.Store+Tmp")
+            os.makedirs(_SCRATCH_BASE)
         import atexit
-        atexit.register(cleanup_scratch, _SCRATCH_BASE, os.getpid())
+        atexit.register(cleanup_scratch, top, os.getpid())
     return _SCRATCH_BASE
 
 
 def cleanup_scratch(path=None, pid=None):
     if pid is not None and pid != os.getpid():
         return  # forked child: the parent owns the directory
-    shutil.rmtree(path or _SCRATCH_BASE or "", ignore_errors=True)
+    shutil.rmtree(path or _SCRATCH_TOP or _SCRATCH_BASE or "", ignore_errors=True)
 
 
 _counter = [0]
